@@ -91,7 +91,6 @@ def showOutcome : Outcome → String
   | .ok s => "OK\t" ++ showStore s
   | .valueError m => "VE\t" ++ encStr m
   | .exit => "EXIT"
-  | .noSection => "NOSECTION"
   | .bad => "bad-op"
 
 def optS {α : Type} (f : α → String) : Option α → String
